@@ -512,8 +512,23 @@ def r14_2(ctx):
                 child = a
             return False
 
+        # D may be a local that merely names `X - B->base`: the sums then show its
+        # definition instead of its name
+        d_def = None
+        for nm_, nd_, e_ in w.defs:
+            if nm_ == D:
+                d_def = _linsum(f, e_)
+                break
+
         def classify(n, ls, how, nxt=None):
             terms, cst = ls
+            if D not in terms and d_def is not None and d_def[0] and \
+                    all(terms.get(t) == c for t, c in d_def[0].items()):
+                terms = dict(terms)
+                for t in d_def[0]:
+                    del terms[t]
+                terms[D] = 1
+                cst -= d_def[1]
             rest = dict((t, c) for t, c in terms.items() if t not in (P, D))
             if terms.get(P) != 1:
                 return
